@@ -244,6 +244,120 @@ func sharedFilterRun(e *concEnv, iters int) string {
 	return "shared-filter"
 }
 
+// slowWriterRun: a Filter whose predicate is held up in the middle of its work keeps the write lock; a second call
+// arrives meanwhile and is let go a moment later. Whatever the second call returns must be what it returns on the
+// token list BEFORE the filter or on the list AFTER it - never a mixture, never a panic - and a token added
+// meanwhile must be there afterwards. (The controlled counterpart of the hammered pairs: the writer is known to be
+// half way when the other call starts.)
+func slowWriterRun(e *concEnv) string {
+	hdr := e.hdr + ",fo1_drop1,fo1_keep1,fo1_drop2,fo1_keep2"
+	keep := func(t bundle.Token) bool { return !strings.Contains(t.String(), "fo1_drop") }
+	mk := func() *bundle.Bundle {
+		b, err := bundle.ParseBundleWithFilter(concLoc, hdr, bundle.KeepAll)
+		if err != nil {
+			panic(err)
+		}
+		return b
+	}
+	type second struct {
+		name string
+		f    func(b *bundle.Bundle) string
+	}
+	seconds := []second{
+		{"Clone", func(b *bundle.Bundle) string { return b.Clone().Header() }},
+		{"Header", func(b *bundle.Bundle) string { return b.Header() }},
+		{"String", func(b *bundle.Bundle) string { return b.String() }},
+		{"Len", func(b *bundle.Bundle) string { return fmt.Sprint(b.Len()) }},
+		{"Count", func(b *bundle.Bundle) string { return fmt.Sprint(b.Count(bundle.KeepAll)) }},
+		{"Select", func(b *bundle.Bundle) string { return b.Select(bundle.KeepAll).Header() }},
+		{"Map", func(b *bundle.Bundle) string {
+			return strings.Join(bundle.Map(b, func(t bundle.Token) string { return t.String() }), ",")
+		}},
+		{"Reduce", func(b *bundle.Bundle) string {
+			return bundle.Reduce(b, func(acc string, t bundle.Token) string { return acc + "," + t.String() })
+		}},
+		{"IsEmpty", func(b *bundle.Bundle) string { return fmt.Sprint(b.IsEmpty()) }},
+		{"AddTokens", func(b *bundle.Bundle) string { b.AddTokens("fo1_added"); return "" }},
+	}
+	for _, sc := range seconds {
+		for _, derived := range []bool{false, true} {
+			b := mk()
+			target := b
+			if derived {
+				target = b.Select(bundle.KeepAll) // shares the guard, has its own list: the filter on b leaves it alone
+			}
+			oldB, newB := mk(), mk()
+			if !derived {
+				newB.Filter(bundle.Predicate(keep))
+			}
+			var wantOld, wantNew string
+			if sc.name == "AddTokens" {
+				oldB.AddTokens("fo1_added")
+				newB.AddTokens("fo1_added")
+				wantOld, wantNew = oldB.Header(), newB.Header()
+			} else {
+				wantOld, wantNew = sc.f(oldB), sc.f(newB)
+			}
+			entered, release := make(chan struct{}), make(chan struct{})
+			var once sync.Once
+			slow := bundle.Predicate(func(t bundle.Token) bool {
+				once.Do(func() { close(entered); <-release })
+				return keep(t)
+			})
+			res := make(chan string, 2)
+			go func() {
+				defer func() {
+					if r := recover(); r != nil {
+						res <- fmt.Sprintf("panic(Filter:%v)", r)
+					}
+				}()
+				b.Filter(slow)
+				res <- "filter-done"
+			}()
+			select {
+			case <-entered:
+			case <-time.After(4 * time.Second):
+				return "hang(slow Filter never started)"
+			}
+			go func() {
+				defer func() {
+					if r := recover(); r != nil {
+						res <- fmt.Sprintf("panic(%s during Filter:%v)", sc.name, r)
+					}
+				}()
+				got := sc.f(target)
+				if sc.name == "AddTokens" {
+					res <- "second-done"
+					return
+				}
+				if got != wantOld && got != wantNew {
+					res <- fmt.Sprintf("wrong-answer(%s during Filter, derived=%v: neither the old nor the new list)", sc.name, derived)
+					return
+				}
+				res <- "second-done"
+			}()
+			time.Sleep(15 * time.Millisecond)
+			close(release)
+			for k := 0; k < 2; k++ {
+				select {
+				case r := <-res:
+					if r != "filter-done" && r != "second-done" {
+						return r
+					}
+				case <-time.After(4 * time.Second):
+					return fmt.Sprintf("hang(%s during Filter)", sc.name)
+				}
+			}
+			if sc.name == "AddTokens" {
+				if got := target.Header(); got != wantOld && got != wantNew {
+					return fmt.Sprintf("lost-update(AddTokens during Filter, derived=%v)", derived)
+				}
+			}
+		}
+	}
+	return "slow-writer"
+}
+
 func famConc(r *Rng, o *Out, tier string) {
 	e := newConcEnv()
 	g, iters, wd := 4, 150, 4*time.Second
@@ -267,6 +381,7 @@ func famConc(r *Rng, o *Out, tier string) {
 	// one FILTER VALUE shared by concurrent readers of a bundle and of a bundle derived from it (readers run
 	// concurrently by design): a filter must not carry state between its applications
 	o.emit("(const shared-filter)", sharedFilterRun(e, iters))
+	o.emit("(const slow-writer)", slowWriterRun(e))
 	hangs := 0
 	for _, a := range all {
 		for _, w := range writers {
